@@ -84,7 +84,7 @@ def load_one(lit: LineIterator) -> dict:
             words = next(lit)
         except StopIteration as exc:
             raise LoadError("Molecule specification did not end properly with $$$$.", lit) from exc
-        if words == "$$$$\n":
+        if words.strip() == "$$$$":
             break
     return {
         "title": title,
